@@ -31,13 +31,13 @@ Record vm := mkVm {
   stack : list frame;       (* call_stack, head = top *)
   seqb : nat;               (* sequence_builders.len() *)
   strb : nat;               (* string_builders.len() *)
-  placeholders : nat;       (* None entries in module_cache *)
+  placeholders : list Z;    (* modules with a None (in progress) entry in module_cache *)
   exports : Z;              (* identity of the active exports map *)
   handlers_run : nat;       (* ghost: catch blocks entered *)
   timeouts_delivered : nat  (* ghost: catch blocks entered with a Timeout error *)
 }.
 
-Definition fresh : vm := mkVm 0 0 [] 0 0 0 0 0 0.
+Definition fresh : vm := mkVm 0 0 [] 0 0 [] 0 0 0.
 
 Definition sizes (v : vm) : Z * Z * Z * Z * Z :=
   (regs v, Z.of_nat (length (stack v)), Z.of_nat (seqb v), Z.of_nat (strb v), base v).
@@ -50,7 +50,7 @@ Definition set_seqb (v : vm) (n : nat) : vm :=
   mkVm (regs v) (base v) (stack v) n (strb v) (placeholders v) (exports v) (handlers_run v) (timeouts_delivered v).
 Definition set_strb (v : vm) (n : nat) : vm :=
   mkVm (regs v) (base v) (stack v) (seqb v) n (placeholders v) (exports v) (handlers_run v) (timeouts_delivered v).
-Definition set_import (v : vm) (p : nat) (e : Z) : vm :=
+Definition set_import (v : vm) (p : list Z) (e : Z) : vm :=
   mkVm (regs v) (base v) (stack v) (seqb v) (strb v) p e (handlers_run v) (timeouts_delivered v).
 Definition note_handler (v : vm) (e : err) : vm :=
   mkVm (regs v) (base v) (stack v) (seqb v) (strb v) (placeholders v) (exports v) (S (handlers_run v))
@@ -131,7 +131,8 @@ Inductive code :=
 | Str (body : code)                      (* StringStart; body; StringFinish *)
 | Lst (body : code)                      (* SequenceStart; body; SequenceToList/Tuple *)
 | Try (body handler : code)              (* TryStart; body; TryEnd | catch: TryEnd; handler *)
-| Import (required : Z) (body : code)    (* run_import of a module not yet cached *)
+| Import (m : Z) (required : Z) (body : code)     (* run_import of file module m, not yet cached: run its script *)
+| ImportMain (m : Z) (required : Z) (body : code) (rmain : Z) (main : code)   (* .. then call its @main *)
 | NRun (required : Z) (body : code)      (* vm.run(chunk) *)
 | NCallKoto (nargs required : Z) (body : code)   (* vm.call_function(koto function, args) *)
 | NCallPre (nargs : Z)                   (* vm.call_function where call_callable fails before a frame exists *)
@@ -269,13 +270,28 @@ Definition do_op_inner (c : callee) (extra : Z) (v : vm) : hres * vm :=
 Definition do_op (c : callee) (extra : Z) (v : vm) : hres * vm :=
   with_register_cleanup (do_op_inner c extra) v.
 
-(* run_import for a module that has to be executed *)
-Definition do_import (body : vm -> outcome * vm) (required : Z) (v : vm) : hres * vm :=
-  let saved := exports v in
-  let v := set_import v (S (placeholders v)) (saved + 1) in   (* placeholder inserted; fresh exports map *)
-  let '(r, v) := do_run body required v in
-  (* Ok: the placeholder is replaced by the module's exports; Err: it is removed; then exports restored *)
-  (r, set_import v (pred (placeholders v)) saved).
+(* run_import for a file module that has to be executed: placeholder (recursive imports are errors), fresh
+   exports map, run the script, then @main if there is one; on Ok the placeholder is replaced by the module's
+   exports, on Err it is REMOVED; the importer's exports map is put back on both paths *)
+Fixpoint remove_one (m : Z) (l : list Z) : list Z :=
+  match l with
+  | [] => []
+  | x :: r => if x =? m then r else x :: remove_one m r
+  end.
+
+Definition do_import (m : Z) (body : vm -> outcome * vm) (required : Z)
+                     (main : option (Z * (vm -> outcome * vm))) (v : vm) : hres * vm :=
+  if existsb (Z.eqb m) (placeholders v) then (HErr EThrown, v)      (* "recursive import of module" *)
+  else
+    let saved := exports v in
+    let v := set_import v (m :: placeholders v) (saved + 1) in
+    let '(r, v) := do_run body required v in
+    let '(r, v) :=
+      match r, main with
+      | HOk, Some (rm, mb) => do_call (CKoto rm mb) 0 v
+      | _, _ => (r, v)
+      end in
+    (r, set_import v (remove_one m (placeholders v)) saved).
 
 Fixpoint exec (c : code) (v : vm) : outcome * vm :=
   match c with
@@ -316,7 +332,9 @@ Fixpoint exec (c : code) (v : vm) : outcome * vm :=
       else (OUnwind e, v')
     | r => r
     end
-  | Import required body => after_native (do_import (exec body) required v)
+  | Import m required body => after_native (do_import m (exec body) required None v)
+  | ImportMain m required body rmain main =>
+      after_native (do_import m (exec body) required (Some (rmain, exec main)) v)
   | NRun required body => after_native (do_run (exec body) required v)
   | NCallKoto nargs required body => after_native (do_call (CKoto required (exec body)) nargs v)
   | NCallPre nargs => after_native (do_call CPre nargs v)
@@ -339,7 +357,8 @@ Inductive hostop :=
 | HCallNative (nargs : Z)
 | HUnopKoto (required : Z) (c : code) | HUnopPre | HUnopPreOv | HUnopPlain
 | HBinopKoto (required : Z) (c : code) | HBinopPre | HBinopPlain
-| HDisplay.                                      (* value_to_string *)
+| HDisplay                                       (* value_to_string: runs on a spawned vm *)
+| HDisplayFails.                                 (* value_to_string whose @display fails (on the spawned vm) *)
 
 Definition host (h : hostop) (v : vm) : hres * vm :=
   match h with
@@ -356,6 +375,7 @@ Definition host (h : hostop) (v : vm) : hres * vm :=
   | HBinopPre => do_op CPre 2 v
   | HBinopPlain => do_op CNative 2 v
   | HDisplay => (HOk, v)
+  | HDisplayFails => (HErr EThrown, v)
   end.
 
 (* a finite history of host operations on one instance: results and the state after each step *)
